@@ -307,7 +307,18 @@ func (e *Exec) check(st *State, extra *term.Term) (smt.Result, *term.Model) {
 		if m == nil {
 			m = map[string]uint64{}
 		}
-		return res, term.NewModel(m)
+		mm := term.NewModel(m)
+		// sanity: the engine's evaluator and the solver must agree on the model
+		for _, a := range as {
+			if e.ts.Eval(a, mm) == 0 {
+				e.CapsHit["internal: solver model does not satisfy a path-condition conjunct under the engine evaluator: "+a.String()]++
+				break
+			}
+		}
+		if e.ts.Eval(extra, mm) == 0 {
+			e.CapsHit["internal: solver model does not satisfy the query under the engine evaluator: "+extra.String()]++
+		}
+		return res, mm
 	}
 	return res, nil
 }
